@@ -36,6 +36,9 @@ type varInfo struct {
 	T   Type
 	Dyn bool // certainly not a compile-time constant
 	RO  bool // never assigned (parameters)
+	// Param marks a struct parameter: its fields can be assigned (always
+	// with input-dependent values), so they stay dynamic sources.
+	Param bool
 	// WO marks a named result that has not been assigned on every path
 	// yet: the compiler does not zero-initialise named results (reading
 	// one before its first assignment yields an undefined value) and no
@@ -64,6 +67,7 @@ type gctx struct {
 	ifDepth int
 	pending []*Stmt // statements that must directly follow the last one
 	wantWO  bool    // visible() includes write-only named results
+	sink    []named // variables that the final return of main must depend on
 }
 
 func (g *gctx) intn(lo, hi int, label string) int {
@@ -228,7 +232,7 @@ func (g *gctx) dynSource(T Type) *Expr {
 	// Fields of read-only (parameter) structs are dynamic as well.
 	var fields []*Expr
 	for _, nv := range vis {
-		if nv.v.RO && nv.v.T.K == KStruct {
+		if (nv.v.RO || nv.v.Param) && nv.v.T.K == KStruct {
 			for _, f := range g.prog.Struct(nv.v.T.S).Fields {
 				if f.T.IsInt() {
 					fields = append(fields, &Expr{Op: EField, T: f.T, Name: f.Name,
@@ -571,6 +575,11 @@ func (g *gctx) stmt() (*Stmt, bool) {
 	}
 	g.budget--
 	if g.o.AliasHeavy && len(g.loops) == 0 && g.chance(18, "aliasidiom") {
+		if g.chance(40, "structidiom") {
+			if st := g.structIdiom(); st != nil {
+				return st, false
+			}
+		}
 		return g.aliasIdiom(), false
 	}
 	k := g.intn(0, 99, "stmt")
@@ -696,6 +705,68 @@ func (g *gctx) stmt() (*Stmt, bool) {
 	default:
 		return g.stmt()
 	}
+}
+
+// structIdiom emits
+//
+//	s.f1 = <value>                      (the old version of s dies here)
+//	vA := <computed value as wide as s>  (wants wires of exactly that width)
+//	vB := s.f2 op ...                    (reads a field the store left alone)
+//
+// the shape in which a wire allocator must not hand the wires of the old
+// struct version to vA although the new version still refers to them.
+func (g *gctx) structIdiom() *Stmt {
+	var cands []named
+	for _, nv := range g.visible() {
+		if nv.v.T.K == KStruct && !nv.v.RO {
+			cands = append(cands, nv)
+		}
+	}
+	if len(cands) == 0 {
+		return nil
+	}
+	nv := cands[g.intn(0, len(cands)-1, "idiomstruct")]
+	sd := g.prog.Struct(nv.v.T.S)
+	w := g.prog.Bits(nv.v.T)
+	if w < 2 || w > 130 || len(sd.Fields) == 0 {
+		return nil
+	}
+	f1 := sd.Fields[g.intn(0, len(sd.Fields)-1, "idiomf1")]
+	f2 := sd.Fields[g.intn(0, len(sd.Fields)-1, "idiomf2")]
+	if f2.Name == f1.Name && len(sd.Fields) > 1 {
+		for _, f := range sd.Fields {
+			if f.Name != f1.Name {
+				f2 = f
+				break
+			}
+		}
+	}
+	sv := &Expr{Op: EVar, T: nv.v.T, Name: nv.name}
+	// The operand of the wide computation exists before the store, so that
+	// no alias instruction (cast) sits between the store and the
+	// computation (an alias would take the freed wire vector harmlessly).
+	W := Uint(w)
+	pre := g.fresh()
+	first := &Stmt{K: SDefine, Name: pre, E: &Expr{Op: EBin, T: W, Name: "+",
+		A: []*Expr{g.dynSource(W), g.dynSource(W)}}}
+	g.top()[pre] = &varInfo{T: W, Dyn: true}
+	e1, _ := g.expr(f1.T, true)
+	g.pending = append(g.pending, &Stmt{K: SSetField, Name: nv.name, Field: f1.Name, E: e1})
+	a := g.fresh()
+	op := []string{"*", "+", "-"}[g.intn(0, 2, "idiomop")]
+	pv := &Expr{Op: EVar, T: W, Name: pre}
+	ea := &Expr{Op: EBin, T: W, Name: op, A: []*Expr{pv, pv}}
+	g.top()[a] = &varInfo{T: W, Dyn: true}
+	g.pending = append(g.pending, &Stmt{K: SDefine, Name: a, E: ea})
+	b := g.fresh()
+	rd := &Expr{Op: EField, T: f2.T, Name: f2.Name, A: []*Expr{sv}}
+	eb := &Expr{Op: EBin, T: f2.T, Name: "+", A: []*Expr{rd, g.castTo(&Expr{Op: EVar, T: W, Name: a}, f2.T)}}
+	g.top()[b] = &varInfo{T: f2.T, Dyn: true}
+	g.pending = append(g.pending, &Stmt{K: SDefine, Name: b, E: eb})
+	if g.fn.Name == "main" && g.ifDepth%100 == 0 {
+		g.sink = append(g.sink, named{b, g.top()[b]})
+	}
+	return first
 }
 
 // aliasIdiom emits the statement sequence
@@ -1056,11 +1127,16 @@ func (g *gctx) returnable() bool {
 
 func (g *gctx) function(f *Func, stmts int) {
 	g.fn = f
+	g.sink = nil
 	g.scopes = nil
 	g.loops = nil
 	g.ifDepth = 0
 	g.push()
 	for _, pa := range f.Params {
+		if pa.T.K == KStruct {
+			g.top()[pa.Name] = &varInfo{T: pa.T, Param: true}
+			continue
+		}
 		g.top()[pa.Name] = &varInfo{T: pa.T, Dyn: isScalar(pa.T), RO: true}
 	}
 	g.budget = stmts
@@ -1086,6 +1162,31 @@ func (g *gctx) function(f *Func, stmts int) {
 			terminated = true
 			break
 		}
+	}
+	if !terminated && f.Name == "main" && len(g.sink) > 0 {
+		// Fold the sink variables into the first integer result so that
+		// the values the idioms computed reach an output.
+		ret := g.returnStmt()
+		for i, r := range f.Results {
+			if !r.IsInt() {
+				continue
+			}
+			for _, sk := range g.sink {
+				cur := g.lookup(sk.name)
+				if cur == nil || !cur.Dyn {
+					continue // reassigned to a constant meanwhile
+				}
+				use := g.castTo(&Expr{Op: EVar, T: cur.T, Name: sk.name}, r)
+				if ret.Es[i].Op == ELit {
+					ret.Es[i] = use
+				} else {
+					ret.Es[i] = &Expr{Op: EBin, T: r, Name: "^", A: []*Expr{ret.Es[i], use}}
+				}
+			}
+			break
+		}
+		f.Body = append(f.Body, ret)
+		terminated = true
 	}
 	if !terminated {
 		if len(f.ResultNames) > 0 {
